@@ -350,7 +350,7 @@ func (w *simWorld) newDialer(iface string, mode system.DialerMode) *system.Diale
 		w.eventf("dial %d ok -> conn %d", i, c.id)
 		return &system.DialContext{
 			Conn:      c,
-			Interface: &net.Interface{Index: 1, Name: iface, HardwareAddr: vkIfiMAC, MTU: 1500, Flags: net.FlagUp},
+			Interface: &net.Interface{Index: 1, Name: iface, HardwareAddr: vkMACFor(iface), MTU: 1500, Flags: net.FlagUp},
 			IP:        netip.MustParseAddr("fe80::1"),
 		}, nil
 	}
@@ -477,3 +477,16 @@ func vkPatched(name string) bool {
 }
 
 func vkAddr(s string) netip.Addr { return netip.MustParseAddr(s) }
+
+// vkMACFor is the hardware address of the simulated interface (eth0 has vkIfiMAC).
+func vkMACFor(name string) net.HardwareAddr {
+	m := append(net.HardwareAddr(nil), vkIfiMAC...)
+	if name != "eth0" {
+		var h byte
+		for i := 0; i < len(name); i++ {
+			h = h*31 + name[i]
+		}
+		m[4], m[5] = h, byte(len(name))
+	}
+	return m
+}
